@@ -389,6 +389,12 @@ func genPipe(r *Rng, tier string, profile string) *pipeCase {
 	if profile == "C08" {
 		c.nch = r.Pick(1, 1, 2)
 	}
+	// directed share of C08: a trigger storm - an edge every other sample, so that ONE block holds well over
+	// a thousand triggers while the same samples cut into blocks hold a few hundred each
+	storm := profile == "C08" && r.Chance(1)
+	if storm {
+		c.nch = 1
+	}
 	// directed share of C01: an edge-multi channel is the group-trigger SOURCE of channels that are in
 	// another trigger mode (their secondaries are cut at frames found by the edge-multi search, possibly
 	// one block late) - needs every channel to retain the same history
@@ -403,6 +409,9 @@ func genPipe(r *Rng, tier string, profile string) *pipeCase {
 		sizes = [][2]int{{64, 256}, {100, 400}, {30, 100}}
 	}
 	sz := sizes[r.Intn(len(sizes))]
+	if storm {
+		sz = [2]int{3, 4}
+	}
 	c.npre, c.nsamp = sz[0], sz[1]
 	c.signed = make([]bool, c.nch)
 	for ch := range c.signed {
@@ -421,9 +430,25 @@ func genPipe(r *Rng, tier string, profile string) *pipeCase {
 	if c09 {
 		total = r.Range(4*c.nsamp, 20*c.nsamp)
 	}
+	if storm {
+		total = r.Range(2300, 3400)
+	}
 	c.streams = make([][]dastard.RawType, c.nch)
 	for ch := range c.streams {
 		c.streams[ch] = genStreamHot(r, total, c.nsamp, c.signed[ch], (profile != "C01" && r.Chance(80)) || mixed || (c09 && r.Chance(85)))
+	}
+	if storm {
+		base := r.Pick(1000, 20000)
+		if c.signed[0] {
+			base = 100
+		}
+		for i := range c.streams[0] {
+			v := base
+			if i%2 == 1 {
+				v = base + 500
+			}
+			c.streams[0][i] = dastard.RawType(v)
+		}
 	}
 	// start of the run: restored settings and/or a ConfigureTriggers request
 	c.saved = map[int]tsSpec{}
@@ -461,6 +486,14 @@ func genPipe(r *Rng, tier string, profile string) *pipeCase {
 			ps = append(ps, [2]int{0, 2})
 		}
 		c.ops = append(c.ops, pipeOp{kind: "GA", pairs: ps})
+	} else if storm {
+		t := tsSpec{edgeMulti: true, emLevel: 100, emNMono: r.Pick(0, 1), disableZT: true}
+		if r.Chance(50) {
+			t.contaminated = true
+		} else {
+			t.short = true
+		}
+		c.ops = append(c.ops, pipeOp{kind: "T", chans: allChans(), ts: t})
 	} else if startStyle >= 1 { // explicit configuration before the first block
 		c.ops = append(c.ops, pipeOp{kind: "T", chans: allChans(), ts: genTS(r, c.nsamp, allowEMT, onlyEMT)})
 		if c.nch > 1 && r.Chance(40) && !onlyEMT {
